@@ -25,6 +25,7 @@
 #include "polynomials_arithmetic.h"
 #include "lagrangehalfc_arithmetic.h"
 #include "keys_common.h"
+#include "ro_mem.h"
 // access to the calling thread's FFT processor (scratch buffers are private members): the back-end's own header, after every
 // standard header has been seen
 #if defined(FAM_SPQLIOS) || defined(FAM_NAYUKI) || defined(FAM_FFTW)
@@ -79,7 +80,17 @@ static void op_alias(const V &a, V &r) {
     if (pat == 1) res = pa; else if (pat == 2) res = pb; else if (pat == 3) res = pc; else if (pat == 4) pb = pa; else if (pat == 5) { pb = pa; pc = pa; res = pa; }
     std::vector<int32_t> s0 = snap(&w[0], n), s1 = snap(&w[1], n), s2 = snap(&w[2], n);
     uint64_t hk = hash_cloud(&cur.sk->cloud); std::default_random_engine g0 = generator;
+    // pattern 6: the three input ciphertexts (structure and mask array) live in read-only memory during the call: a gate that writes to
+    // an input, even if it restores it before returning, dies
+    RoArena arena(3 * ((size_t) n * 4 + sizeof(LweSample) + 256) + 4096);
+    if (pat == 6) {
+        LweSample *ro[3];
+        for (int q = 0; q < 3; q++) { char img[sizeof(LweSample)]; memcpy(img, (const void *) &w[q], sizeof(LweSample));
+            ((LweSample *) img)->a = (Torus32 *) arena.put(w[q].a, (size_t) n * 4); ro[q] = (LweSample *) arena.put(img, sizeof(LweSample)); }
+        arena.seal(); pa = ro[0]; pb = ro[1]; pc = ro[2];
+    }
     apply_gate(g, res, pa, pb, pc, (int) v[n], &cur.sk->cloud);
+    if (pat == 6) arena.unseal();
     bool in_ok = true;
     if (res != &w[0] && snap(&w[0], n) != s0) in_ok = false;
     if (res != &w[1] && snap(&w[1], n) != s1) in_ok = false;
@@ -114,11 +125,19 @@ static void op_frame(const V &a, V &r) {
     uint64_t hk = hash_cloud(&cur.sk->cloud); std::default_random_engine g0 = generator;
     std::vector<int32_t> sx = snap(x, n), su = snap(u, k * N);
     // 0 tfhe_bootstrap_FFT  1 tfhe_bootstrap_woKS_FFT  2 tfhe_bootstrap  3 tfhe_bootstrap_woKS
+    { RoArena ar((size_t) n * 4 + sizeof(LweSample) + 4096); char img[sizeof(LweSample)]; memcpy(img, (const void *) x, sizeof(LweSample));
+      ((LweSample *) img)->a = (Torus32 *) ar.put(x->a, (size_t) n * 4); const LweSample *xro = (const LweSample *) ar.put(img, sizeof(LweSample)); ar.seal();
+      tfhe_bootstrap_FFT(res, bf, 1 << 29, xro); tfhe_bootstrap_woKS_FFT(u, bf, 1 << 29, xro); if (n <= 64) { tfhe_bootstrap(res, bk, 1 << 29, xro); tfhe_bootstrap_woKS(u, bk, 1 << 29, xro); } ar.unseal(); }
     tfhe_bootstrap_FFT(res, bf, 1 << 29, x); check(snap(x, n) == sx, hk, g0);
     tfhe_bootstrap_woKS_FFT(u, bf, 1 << 29, x); check(snap(x, n) == sx, hk, g0); su = snap(u, k * N);
     if (n <= 64) { tfhe_bootstrap(res, bk, 1 << 29, x); check(snap(x, n) == sx, hk, g0); tfhe_bootstrap_woKS(u, bk, 1 << 29, x); check(snap(x, n) == sx, hk, g0); su = snap(u, k * N); }
     else { for (int i = 0; i < 6; i++) r.push_back(1); }
     // 4 lweKeySwitch
+    // (mask coefficients that round to zero at the key-switching precision included; the input lives in read-only memory during the call)
+    u->a[0] = 0; u->a[1] = 0x1234; u->a[2] = -5; u->a[k * N - 1] = 1 << 14; su = snap(u, k * N);
+    { RoArena ar((size_t) k * N * 4 + sizeof(LweSample) + 4096); char img[sizeof(LweSample)]; memcpy(img, (const void *) u, sizeof(LweSample));
+      ((LweSample *) img)->a = (Torus32 *) ar.put(u->a, (size_t) k * N * 4); const LweSample *uro = (const LweSample *) ar.put(img, sizeof(LweSample)); ar.seal();
+      lweKeySwitch(res, bf->ks, uro); ar.unseal(); }
     lweKeySwitch(res, bf->ks, u); check(snap(u, k * N) == su, hk, g0);
     // 5 tLweExtractLweSample  6 tLweExtractLweSampleIndex
     uint64_t ha = tl(acc);
